@@ -107,7 +107,11 @@ class CollisionOracle:
                 if sa.state.name in REQ_STATES:
                     k = (n.name, n.incarnation, id(sa))
                     seen.add(k)
-                    cur = (sa.state.name, sa.my_msg_id)
+                    # which request: an IKE_SA_INIT retry after COOKIE / INVALID_KE_PAYLOAD is a new request under the same Message ID and
+                    # state, with a retransmission budget of its own (survey with VERIF_SEED=3, seed 3000638)
+                    last = next((x['data'] for x in reversed(self.wire.by_sender.get(n.name, [])[-40:]) if x['h'] is not None and not x['h']['R']
+                                 and sa.my_spi in (x['h']['spi_i'], x['h']['spi_r']) and x['h']['id'] == sa.my_msg_id), b'')
+                    cur = (sa.state.name, sa.my_msg_id, last)
                     old = self.waiting.get(k)
                     if old is None or old[0] != cur:
                         self.waiting[k] = (cur, w.now)
@@ -164,6 +168,16 @@ class CollisionOracle:
             cb = {frozenset((bytes(c.inbound_spi), bytes(c.outbound_spi))) for c in sb.child_sas}
             diff = (ca ^ cb)
             bad = [d for d in diff if d in self.ever_shared]
+            # the successor of a CHILD_SA known to both (a rekey that succeeded on the wire) is the outcome of a trigger that concerned a
+            # CHILD_SA known to both: it counts, even if one end never got as far as tracking it
+            shared_spis = {x for pair in self.ever_shared for x in pair}
+            for d in diff:
+                if d in self.ever_shared or getattr(self, 'tap', None) is None:
+                    continue
+                ch = next((c for c in self.tap.children if frozenset((c['spi_init'], c['spi_resp'])) == d), None)
+                if ch is not None and ch['rekey_of'] is not None and ch['rekey_of'] in shared_spis and not ch['req'].get('rewritten'):
+                    self._r('one_sided_rekey_successor')
+                    bad.append(d)
             self._r('children_compared', len(ca | cb))
             if diff and not bad:
                 self._r('one_sided_child_never_shared', len(diff))
@@ -355,6 +369,12 @@ def generate(seed, tier):
                 sc['ops'].append({'t': tt, 'op': 'clockjump', 'node': who, 'delta': conn['lifetime'] + 36, 'trig': kind, 'wake': pair})
             else:
                 sc['ops'].append({'t': tt, 'op': 'clockjump', 'node': who, 'delta': conn['dpd'] + 1, 'trig': kind, 'wake': pair})
+    if not fifo and r.random() < 0.35:
+        # the answer to a CREATE_CHILD_SA request is held back (or lost: the retransmission fetches the stored answer) while the endpoint
+        # that gave it gets a local trigger of its own: its request overtakes its own earlier answer
+        sc['late_answer'] = {'fires': r.randint(1, 3), 'how': r.choice(['delay', 'delay', 'drop']), 'lat': r.choice([0.6, 1.2, 1.9]),
+                             'trigger': r.choice(['expire_hard', 'expire_hard', 'expire_soft', 'dpd']), 'which': r.randrange(4), 'dir': r.choice(['in', 'out']),
+                             'after': r.choice([0.001, 0.05, 0.3])}
     dpd_max = max(ra['dpd'], rb['dpd'])
     H = dpd_max + 20 + 5 + 5
     sc['H'] = H
@@ -376,7 +396,51 @@ def run(scenario):
         ctx['oracle'] = CollisionOracle(w, wire, fifo, scenario['H'])
         from sim.wiretap import Wiretap
         ctx['tap'] = Wiretap(w, check_reencode=False)
+        ctx['oracle'].tap = ctx['tap']
         ctx['answers'] = CollisionAnswers(w, ctx['tap'], ctx['oracle'])
+        la = scenario.get('late_answer')
+        if la:
+            from sim.scenario import apply_op
+
+            class LateAnswer:
+                n = 0
+                seen = set()
+
+                def on_wire(self, meta, data):
+                    h = parse_header(data)
+                    if h is None or h['exch'] != 36 or not h['R'] or self.n >= la['fires'] or w.now >= scenario['quiet_from']:
+                        return
+                    k = (meta['sender'], h['spi_i'], h['spi_r'], h['I'], h['id'])
+                    if k in self.seen:
+                        return
+                    self.seen.add(k)
+                    last = ctx['tap'].children[-1] if ctx['tap'].children else None
+                    rek = last is not None and last['res']['raw'] == bytes(data) and last['rekey_of'] is not None
+                    if la['trigger'] != 'dpd' and not rek and la['which'] % 2:
+                        return          # half of the scenarios aim at the answers to CHILD_SA rekeys only
+                    self.n += 1
+                    ctx['oracle']._r('late_answer.fired')
+                    w.decisions.explicit[meta['key']] = {'fate': 'drop'} if la['how'] == 'drop' else {'fate': 'deliver', 'lat': [la['lat']]}
+                    who = meta['sender']
+                    conn = next(iter(configs.read_conf(scenario['nodes'][who]['conf']).values()))
+                    if la['trigger'] == 'dpd':
+                        op = {'op': 'clockjump', 'node': who, 'delta': conn['dpd'] + 1, 'wake': True}
+                    elif rek:
+                        # the CHILD_SA whose rekey was just answered expires at the answering end (its kernel counts on its own)
+                        node = w.nodes[who]
+                        old_spis = {last['rekey_of']}
+                        keys = [k_ for k_ in node.kernel.sad if k_[2] in old_spis]
+                        pair = next((c for sa in node.ike_sas() for c in sa.child_sas if last['rekey_of'] in (bytes(c.inbound_spi), bytes(c.outbound_spi))), None)
+                        if pair is not None and la['dir'] == 'out':
+                            keys = [k_ for k_ in node.kernel.sad if k_[2] in (bytes(pair.inbound_spi), bytes(pair.outbound_spi)) and k_[2] not in old_spis] or keys
+                        hard = la['trigger'] == 'expire_hard'
+                        ctx['oracle']._r('late_answer.rekeyed_child_expires')
+                        w.after(la['after'], lambda: keys and node.state == 'running' and node.kernel.expire_now(keys[0], hard), 'late_answer.trigger')
+                        return
+                    else:
+                        op = {'op': 'expire', 'node': who, 'which': la['which'], 'dir': la['dir'], 'hard': int(la['trigger'] == 'expire_hard')}
+                    w.after(la['after'], lambda: apply_op(w, op, ctx), 'late_answer.trigger')
+            w.net.taps.append(LateAnswer())
 
     def at_end(w, ctx):
         orc = ctx['oracle']
